@@ -363,4 +363,121 @@ def c11(tier, seed):
                          assumptions=["TLC evaluates Cnf.tla faithfully"], machinery_error=err)
 
 
-CHECKS = {"C10": c10, "C11": c11, "C12": c12}
+def c03(tier, seed):
+    import json
+    import export
+    import gen
+    import gen_blocks
+    import impl
+    from checks_design import Coverage, canon, batches
+    t0 = time.time()
+    cov, out, err = Coverage(), [], None
+    try:
+        rng = random.Random(seed)
+        pool = gen.systematic_flat() + gen.systematic_corner() + gen_blocks.systematic_blocks() + gen.random_flat(rng, 40 if tier == "quick" else 400, max_T=6)
+        pool += common.witness_cases("C03")
+        obs = impl.run_tasks([(c, [{"op": "cnf"}]) for c in pool], op_timeout=60)
+        maxv, maxc = (260, 1100) if tier == "quick" else (700, 4000)
+        sel = []
+        for c, o in zip(pool, obs):
+            if len(o) < 2 or o[0].get("status") != "built" or o[1].get("status") != "returned":
+                continue
+            d = o[1]
+            if d["errors"] or d["maxvar"] > maxv or len(d["clauses"]) > maxc or d["support"] > (36 if tier == "quick" else 60):
+                continue
+            sel.append((c, d))
+        limit = 36 if tier == "quick" else 400
+        rng.shuffle(sel)
+        sel = sorted(sel[:limit], key=lambda x: x[0]["id"])
+        for i in range(0, len(sel), 30):
+            chunk = sel[i:i + 30]
+            mcases = [{"nv": max(d["maxvar"], d["declared"], d["support"]), "clauses": d["clauses"], "support": d["support"]} for c, d in chunk]
+            path = tlc.write_cases(mcases, "models")
+            try:
+                r = tlc.run("MCModels.tla", "MCModels.cfg", env={"VERIF_CASES": path}, tags=("MODEL", "UNMENTIONED"), timeout=2400)
+            finally:
+                os.unlink(path)
+            cov.stats["states"] = cov.stats.get("states", 0) + r.distinct
+            cov.stats["transitions"] = cov.stats.get("transitions", 0) + r.states
+            models = {}
+            for rec in r.records:
+                if rec[0] == "MODEL":
+                    models.setdefault(rec[1], []).append((rec[2], sorted(rec[3]["set"])))
+                else:
+                    c, d = chunk[rec[1] - 1]
+                    out.append(violation("C03", "unmentioned", c, variables=sorted(rec[2]["set"])[:10], declared=d["declared"],
+                                         detail="variables inside the declared range occur in no clause"))
+            # decode every model with the library's decoder
+            tasks = [(c, [{"op": "decode", "models": [m for _, m in models.get(k + 1, [])][:3000]}]) for k, (c, d) in enumerate(chunk)]
+            dobs = impl.run_tasks(tasks, op_timeout=120)
+            tcases = []
+            keep = []
+            for k, ((c, d), o) in enumerate(zip(chunk, dobs)):
+                cov.evaluations += 1
+                if len(o) < 2 or o[1].get("status") != "returned":
+                    continue
+                exps = o[1]["exps"]
+                ms = models.get(k + 1, [])
+                if len(ms) > 3000:
+                    cov.notes["too_many_models"] = cov.notes.get("too_many_models", 0) + 1
+                    continue
+                for (n, m), e in zip(ms, exps):
+                    if n != 1:
+                        out.append(violation("C03", "models", c, count=n, detail="a trial sequence has more than one satisfying "
+                                             "assignment of the complete formula (an auxiliary variable is not determined)",
+                                             example=e["s"]))
+                        break
+                seqs = [e["s"] for e in exps if e["n"] >= 0]
+                tcases.append(export.tlc_case(c, impl=seqs, traces=exps, enum=True))
+                keep.append((c, exps))
+            if not tcases:
+                continue
+            path = tlc.write_cases(tcases, "c03")
+            tr = tlc.run_with_norm("MCTrace.tla", "MCTrace.cfg", path, timeout=1500)
+            er = tlc.run_with_norm("MCEnum.tla", "MCEnum.cfg", path, env={"VERIF_PRUNE": "1"}, timeout=1500)
+            os.unlink(path)
+            cov.stats["states"] += tr.distinct + er.distinct
+            cov.stats["transitions"] += tr.states + er.states
+            mult, badv = {}, {}
+            for rec in tr.records:
+                if rec[0] == "V":
+                    if rec[3] != "ok":
+                        badv.setdefault(rec[1], (rec[3], rec[2]))
+                    mult[(rec[1], rec[2])] = rec[4]
+            miss = {}
+            for rec in er.records:
+                if rec[0] == "MISSING":
+                    miss.setdefault(rec[1], []).append(rec[2])
+            for k, (c, exps) in enumerate(keep):
+                cov.stats["traces"] = cov.stats.get("traces", 0) + len(exps)
+                if k + 1 in badv:
+                    v, ei = badv[k + 1]
+                    out.append(violation("C03", "invalid", c, verdict=v, detail="a model of the formula decodes to an invalid sequence",
+                                         example=exps[ei - 1]["s"]))
+                if k + 1 in miss:
+                    out.append(violation("C03", "missing", c, count=len(miss[k + 1]), detail="a valid sequence has no model",
+                                         example=miss[k + 1][0]))
+                # one model per solution: name-level sequences may repeat exactly Mult times (R11)
+                seen = {}
+                for ei, e in enumerate(exps):
+                    seen.setdefault(json.dumps(e["s"]), []).append(ei)
+                for key, eis in seen.items():
+                    m = mult.get((k + 1, eis[0] + 1), 1)
+                    if (k + 1, eis[0] + 1) in mult and badv.get(k + 1) is None and len(eis) != m:
+                        out.append(violation("C03", "models", c, count=len(eis), expected=m,
+                                             detail="number of models of one trial sequence differs from its multiplicity", example=json.loads(key)))
+                        break
+                if len(exps) > 1:
+                    cov.nontrivial.add(canon(c))
+                    cov.sample({"case": common.brief_case(c), "models": len(exps), "first_model_decoded": exps[0]["s"]})
+    except tlc.TLCError as e:
+        err = str(e)[:2000]
+    return common.finish("C03", tier, seed, "model_checking", out, cov.as_dict(
+        "build_cnf(block) for designs whose formula has at most %d variables; MCModels runs DPLL over the trial-sequence variables "
+        "and counts, for every consistent assignment of them, the extensions to the auxiliary variables (must be exactly 1); the "
+        "models are decoded by the library and go through MCTrace (model => valid sequence) and MCEnum (valid sequence => model); "
+        "variables of the declared range that occur in no clause are reported; non-trivial = more than one model" % (260 if tier == "quick" else 700)),
+        t0, machinery_error=err)
+
+
+CHECKS = {"C10": c10, "C11": c11, "C12": c12, "C03": c03}
